@@ -17,14 +17,52 @@ import pool
 M256 = (1 << 256) - 1
 
 
-def tok_record(t):
+def tok_record(t, grp=0):
     w = t.split()
     op = w[0]
     if op.startswith("DUP") and op[3:].isdigit():
-        return {"op": "DUP", "k": int(op[3:]), "push": False}
+        return {"op": "DUP", "k": int(op[3:]), "push": False, "c": "", "grp": 0}
     if op.startswith("SWAP") and op[4:].isdigit():
-        return {"op": "SWAP", "k": int(op[4:]), "push": False}
-    return {"op": op, "k": 0, "push": op == "PUSH" and len(w) == 2}
+        return {"op": "SWAP", "k": int(op[4:]), "push": False, "c": "", "grp": 0}
+    push = op == "PUSH" and len(w) == 2
+    return {"op": op, "k": 0, "push": push, "c": w[1].lower().lstrip("0") or "0" if push else "", "grp": grp}
+
+
+STORES = ("MSTORE", "MSTORE8", "SSTORE")
+
+
+def store_groups(tokens):
+    """{position (1-based) of a store: length of its store group}: the segment since the previous store builds the operands of the
+    store in place - it never pops or rearranges what was on the stack before it (DUPs may read it) and leaves the height unchanged"""
+    out, start = {}, 0
+    for i, t in enumerate(tokens):
+        if t.split()[0] not in STORES:
+            continue
+        cur, ok = 0, True
+        for u in tokens[start:i + 1]:
+            op = u.split()[0]
+            try:
+                if op.startswith("DUP") and op[3:].isdigit():
+                    cur += 1
+                elif op.startswith("SWAP") and op[4:].isdigit():
+                    ok = ok and cur >= int(op[4:]) + 1
+                else:
+                    a, b = gen.arity(u)
+                    ok = ok and cur >= a
+                    cur += b - a
+            except Exception:
+                ok = False
+            if not ok:
+                break
+        if ok and cur == 0 and i + 1 - start >= 2:
+            out[i + 1] = i + 1 - start
+        start = i + 1
+    return out
+
+
+def base_records(tokens):
+    g = store_groups(tokens)
+    return [tok_record(t, g.get(i + 1, 0)) for i, t in enumerate(tokens)]
 
 
 # stack permutations of kind "permute" (Mutate.tla: NPerms): single exchanges and the exchange of the operand pairs
@@ -49,6 +87,14 @@ REPEATED = ["DUP1 PUSH 1 SSTORE PUSH 1 SSTORE SWAP1", "DUP2 DUP2 SSTORE DUP2 DUP
             "DUP1 PUSH 0 MSTORE PUSH 0 MSTORE", "DUP2 DUP2 MSTORE8 DUP2 DUP2 MSTORE8 POP", "PUSH 0 MSTORE PUSH 2 PUSH 1f KECCAK256 POP"]
 
 
+# bases with several loads of one address between stores that are computed in place (found by a sub-agent of the fourth round of
+# seeded changes): exchanging two store groups gives a block the pinned checker cannot tell from the base
+GROUPS = ["PUSH 2 DUP2 SLOAD SSTORE PUSH 20 DUP2 SLOAD SSTORE DUP1 SLOAD", "PUSH 2 DUP2 SLOAD SSTORE PUSH 20 DUP2 SLOAD SSTORE",
+          "DUP1 PUSH 20 MLOAD MSTORE DUP1 PUSH 20 MLOAD MSTORE PUSH 20 MLOAD DUP2 MSTORE", "PUSH 1 DUP2 SSTORE PUSH 2 DUP3 SSTORE",
+          "PUSH 1 DUP2 MSTORE PUSH 2 DUP3 MSTORE", "PUSH 1 DUP2 PUSH 1 ADD SSTORE PUSH 2 DUP3 SSTORE", "PUSH 1 DUP2 MSTORE8 PUSH 2 DUP3 MSTORE",
+          "DUP1 SLOAD DUP2 SSTORE DUP1 SLOAD PUSH 1 ADD DUP2 SSTORE DUP1 SLOAD", "PUSH 7 PUSH 0 MSTORE PUSH 8 PUSH 0 MSTORE PUSH 0 MLOAD"]
+
+
 def apply(tokens, pos, kind, par, repl):
     t = list(tokens)
     i = pos - 1
@@ -69,6 +115,11 @@ def apply(tokens, pos, kind, par, repl):
         t[i], t[i + 1] = t[i + 1], t[i]
     elif kind == "permute":
         t[0:0] = PERMS[par - 1].split()
+    elif kind == "swapgroup":
+        g = store_groups(tokens)[pos]
+        t[pos - g:par] = t[pos:par] + t[pos - g:pos]
+    elif kind == "swapconst":
+        t[i], t[par - 1] = t[par - 1], t[i]
     elif kind == "index":
         name = "DUP" if cur.startswith("DUP") else "SWAP"
         k = int(cur[len(name):])
@@ -162,7 +213,7 @@ def plain_items(instrs):
 
 def mutants_of(bases, tag="mut"):
     p = os.path.join(common.workdir(), "%s_bases.json" % tag)
-    common.write_json(p, {"bases": [[tok_record(t) for t in b] for b in bases]})
+    common.write_json(p, {"bases": [base_records(b) for b in bases]})
     r = common.run_tlc("Mutate", "Mutate.cfg", {"BASES": p}, workers=1, heap="4g", timeout=3600, tag=tag)
     if not r.ok:
         raise common.MachineryError("Mutate failed:\n" + r.out[-2000:])
@@ -172,7 +223,7 @@ def mutants_of(bases, tag="mut"):
 def run(tier):
     t0 = time.time()
     seed = common.seed()
-    texts = list(corpus.hand_blocks()) + STORE_PAIRS + SPLIT_MOVES + REPEATED
+    texts = list(corpus.hand_blocks()) + STORE_PAIRS + SPLIT_MOVES + REPEATED + GROUPS
     if tier == "quick":
         for v, shapes, n in ((gen.rule_vocab(gen.C3), gen.RULE_SHAPES_BASIC, 150), (gen.mem_vocab(small=True), [["*", "*"]], 120),
                              (gen.sto_vocab(), [["*", "*"]], 80), (gen.stack_vocab(), [["*", "*", "*"]], 80),
@@ -203,10 +254,12 @@ def run(tier):
         b = bases[m[0] - 1]
         if " ".join(b) in SPLIT_MOVES or " ".join(b) in REPEATED:
             return True            # every mutant of these few bases
+        if m[2] in ("swapgroup", "swapconst") and len(b) <= 14:
+            return True
         return m[2] == "permute" and len(b) <= 8 and any(t.split()[0] in ("MSTORE", "MSTORE8", "SSTORE", "MLOAD", "SLOAD", "KECCAK256") for t in b)
     kept = [m for m in muts if keep(m)]
     if tier == "quick":
-        always = STORE_PAIRS + SPLIT_MOVES + REPEATED
+        always = STORE_PAIRS + SPLIT_MOVES + REPEATED + GROUPS
         kept = [m for m in kept if " ".join(bases[m[0] - 1]) in always] + corpus.sample([m for m in kept if " ".join(bases[m[0] - 1]) not in always], 600, seed)
     muts = kept + corpus.sample([m for m in muts if not keep(m)], maxmut, seed)
     cmds, meta = [], []
@@ -228,7 +281,7 @@ def run(tier):
     res = pool.run_matrix([(argv, [dict(c) for c in cmds]) for _, argv in optsets], timeout=20)
     if tier == "quick":
         # the pinned bases (stores exchanged, repeated stores, sub-blocks without specification) also with rules disabled
-        pinned = set(STORE_PAIRS + SPLIT_MOVES + REPEATED)
+        pinned = set(STORE_PAIRS + SPLIT_MOVES + REPEATED + GROUPS)
         sel = [i for i, c in enumerate(cmds) if c["a"] in pinned]
         rs = pool.run_matrix([(["-greedy", "-no-simplification"], [dict(cmds[i]) for i in sel])], timeout=20)[0]
         full = [{"skipped": True}] * len(cmds)
@@ -318,6 +371,9 @@ def run(tier):
             ks.append("forves|" + c.get("clause", ""))
         if findings.misaligned_overlap(c["a"]) or findings.misaligned_overlap(c["b"]):
             ks.append("misaligned-overlap")
+        if "mutation" in c and c["mutation"][1] in ("swapgroup", "swapconst", "swapnext", "permute") and findings.repeated_load_across_store(c["a"]) \
+                and findings.repeated_load_across_store(c["b"]):
+            ks.append("checker|stores exchanged between repeated identical loads")
         return ks
     out = findings.settle("C05", viol, lambda c: dict(c, key=c["a"] + " ~ " + c["b"]), keys)
     if cnt["mut_equal"] == 0 or cnt["mut_different"] == 0:
